@@ -61,6 +61,15 @@ class LayoutFolder(Folder):
         ax = a[1] if len(a) > 1 else kw.get("axis")
         if not isinstance(p, Perm) or ax is None:
             raise Refuse("flip form")
+        if isinstance(ax, (tuple, list)):
+            seen = set()
+            for x in ax:
+                k = self._ax(p, x)
+                if k in seen:
+                    raise Raised("ValueError", None)  # numpy: repeated axis
+                seen.add(k)
+                p = p.flipax(k)
+            return p
         return p.flipax(self._ax(p, ax))
 
     def c_np_transpose(self, a, kw):
